@@ -50,3 +50,14 @@ def library_config_changes(feature, repo=None):
         if withf[p] != fs:
             out.append((p, withf[p] - fs, fs - withf[p]))
     return out, len(base)
+
+
+def same_library_clause(ctx, clause, features=("cmdline", "python"), why="the number model (serde_json::Number::as_f64 total, numbers parsed as i64/u64/f64)"):
+    """The front-end features reconfigure no package of the library build — so what the rules establish for the
+    default build (in particular %s) holds for the library inside the command and the Python module too."""
+    for feat in features:
+        changes, npk = library_config_changes(feat)
+        ctx.floor("packages of the library build compared (%s)" % feat, npk, 10)
+        ctx.check(not changes, clause, "feature %s leaves every package of the library build configured as in the default build (%d packages)" % (feat, npk),
+                  "enabling feature %s reconfigures packages the library itself is built from: %s — %s no longer holds in that build" % (feat, "; ".join("%s +%s -%s" % (p_, sorted(a), sorted(r_)) for p_, a, r_ in changes), why),
+                  where="Cargo.toml", nontrivial=True)
